@@ -117,9 +117,19 @@ def check_dofpv(uset, rows, res):
     pos = {(r[0], r[1]): i for i, r in enumerate(rows)}
     requests = {
         "ids": [10, 30], "ids_rev": [30, 10], "pairs": [[30, 2], [10, 5], [20, 0]], "lists": [[10, 135], [30, 123456]], "single": [[10, 3]],
+        "digits_desc": [[10, 421], [30, 654321]], "digits_rep": [[10, 11], [30, 363]],
         "missing_id": [10, 40], "missing_pair": [[10, 2], [40, 1]], "scalar_as_grid": [[20, 1]], "dup": [[10, 1], [10, 1]], "list0": [[20, 0], [10, 246]],
     }
-    for setname in ("p", "a", "b", "q", "g", "b+q"):
+    for req in ([[15, 421]], [[14, 654321], [12, 11]], [[7, 0], [9, 135], [9, 531]], [3, 8]):
+        arr = np.array(req)
+        if arr.ndim == 1:
+            want = [[int(i), k] for i in arr for k in range(1, 7)]
+        else:
+            want = [[int(i), int(ch)] for i, c in arr for ch in str(int(c))]
+        got = n2p.expanddof(arr)
+        if np.asarray(got).tolist() != want:
+            msgs.append("expanddof(%s) = %s, expected the components in the order given: %s" % (req, np.asarray(got).tolist(), want))
+    for setname in ("p", "a", "b", "q", "g", "b+q", "a+b", "l+t"):
         mem = members(setname)
         sub = [i for i, l in enumerate(letters) if l in mem]
         subpos = {(rows[i][0], rows[i][1]): k for k, i in enumerate(sub)}
@@ -184,6 +194,20 @@ def check_locate(res, which):
                     want = [i for i, row in enumerate(needles) if any(np.array_equal(row, h) for h in hay)]
                     if list(pn) != want:
                         msgs.append("mat_intersect(%s, %s, %d): rows of the looped matrix found %s, expected %s" % (D1.tolist(), D2.tolist(), keep, list(pn), want))
+        # mixed dtypes: an integer matrix against float rows with fractional parts (no silent truncation), every keep
+        ints = [np.array([1, 2, 3, 4, 5]), np.array([[1, 2], [3, 4], [2, 2]])]
+        flts = [np.array([2.5, 3.0, 4.999, 1.0]), np.array([[1.0, 2.0], [3.5, 4.0], [2.0, 2.0], [2.9, 2.0]])]
+        for I, Fm in zip(ints, flts):
+            for D1, D2 in ((I, Fm), (Fm, I)):
+                for keep in (0, 1, 2):
+                    pv1, pv2 = locate.mat_intersect(D1, D2, keep)
+                    res.ev("mat_intersect/mixed-dtype/keep%d" % keep)
+                    r1 = np.atleast_2d(D1.T).T if D1.ndim == 1 else D1
+                    r2 = np.atleast_2d(D2.T).T if D2.ndim == 1 else D2
+                    want = sorted((i, j) for i in range(len(r1)) for j in range(len(r2)) if np.array_equal(np.asarray(r1[i], float), np.asarray(r2[j], float)))
+                    got = sorted(zip(map(int, pv1), map(int, pv2)))
+                    if got != want:
+                        msgs.append("mat_intersect(%s, %s, %d) on mixed integer/float input pairs rows %s; rows that are equal as numbers: %s" % (D1.tolist(), D2.tolist(), keep, got, want))
         # 1-D and float forms
         a, b = np.array([3.0, -0.0, 1.5, 7.0]), np.array([0.0, 7.0, 2.0])
         pv1, pv2 = locate.mat_intersect(a, b, 1)
@@ -262,7 +286,8 @@ def check_locate(res, which):
 
 # ------------------------------------------------------------------ driver
 def set_pairs():
-    exprs = NAMES + ["b+q", "c+r", "o+s", "m+e", "a+o", "q+e"]
+    # '+' unions: disjoint, overlapping (a superset plus one of its members, two overlapping supersets) and repeated terms
+    exprs = NAMES + ["b+q", "c+r", "o+s", "m+e", "a+o", "q+e", "a+b", "m+g", "t+l+r", "b+b", "f+o", "s+n", "l+t"]
     return [(a, b) for a in exprs for b in exprs]
 
 
